@@ -8,6 +8,7 @@ import (
 	"strings"
 
 	"github.com/z7zmey/php-parser/pkg/ast"
+	"github.com/z7zmey/php-parser/pkg/version"
 	"github.com/z7zmey/php-parser/pkg/visitor"
 	"github.com/z7zmey/php-parser/pkg/visitor/dumper"
 	"github.com/z7zmey/php-parser/pkg/visitor/nsresolver"
@@ -232,6 +233,14 @@ func c13Run(c *core.Ctx) {
 			}
 		}
 	}
+	// every single-import program of the name-resolution model: resolve, then each operation once more
+	forNSPrograms(func(src string, v *version.Version) {
+		if !c.Next() {
+			return
+		}
+		setBlock(&srcCase{})
+		c13ResolveThen(c, []byte(src), verStr(v))
+	})
 	// name-resolution-heavy and error-carrying programs
 	for _, s := range c13Extra {
 		for _, v := range []string{"7.4", "5.6"} {
@@ -245,6 +254,9 @@ func c13Run(c *core.Ctx) {
 }
 
 var c13Extra = []string{
+	"<?php namespace App; use Foo\\Constraints as Assert; new Assert\\NotBlank(); Assert\\f(); echo Assert\\C; function g(Assert\\T $p): Assert\\R {}",
+	"<?php use Foo\\Bar\\{Baz, Qux as Q, function f, const C}; new Baz; new Q\\Sub; f(); C; Foo \\ Bar\\/* c */Baz::m(); namespace\\ X \\ Y::z();",
+	"<?php namespace A\\B { use C\\D as E; class F extends E\\G implements E, \\H { use E\\T { E\\T::m insteadof \\U; } } } namespace { new A\\B\\F; }",
 	"<?php namespace A\\B; use X\\Y as Z, Q\\R; use function F\\g; use const C\\D; class K extends Z implements R { use T; function m(Z $a, ?int $b): R { return new Z(g(), D); } } function h() {} const E = 1;",
 	"<?php namespace A { class B extends \\C { } } namespace { new B; foo(); BAR; }",
 	"<?php use A\\{B, C as D, function e, const F}; new B; new D; e(); F; try { } catch (B | D $x) { } finally { }",
@@ -257,7 +269,7 @@ var c13Extra = []string{
 func init() {
 	register(&core.Check{
 		Prop: "C13", Level: "exploration", Exhaust: true, QuickSecs: 300, ThorSecs: 2400,
-		Rule: "for the tree of every rule-level and 2-path E-lr program of both grammars ( with and without trivia; trees returned with errors included) and of seven hand-written resolver/interpolation/error programs: every sequence over {print, dump+tokens+positions, dump, traverse(Null), resolve} of length <= 3 (quick) / <= 4 (thorough); the seven extras two deeper, explored depth-first by replaying the path on a freshly parsed tree. " +
+		Rule: "for the tree of every rule-level and 2-path E-lr program of both grammars ( with and without trivia; trees returned with errors included) and of ten hand-written resolver/interpolation/error programs: every sequence over {print, dump+tokens+positions, dump, traverse(Null), resolve} of length <= 3 (quick) / <= 4 (thorough); the ten extras two deeper, explored depth-first by replaying the path on a freshly parsed tree; plus every single-import program of the name-resolution model (226 k programs) with resolve followed by resolve, print and dump. " +
 			"Oracle after every step: the step's output equals the same operation's output on a fresh tree, and a deep reflection snapshot (all fields, slice lengths and capacities, pointer-graph shape, token bytes) equals the snapshot of the fresh tree; also two parses of the same input give equal snapshots. states = distinct snapshots seen (must equal trees), transitions = operation applications judged. non-trivial = a tree was returned; distinct by (version, source)",
 		Assume: []string{"a panic inside an operation is an output like any other (it must then panic identically on a fresh tree)"},
 		Run:    c13Run,
@@ -269,4 +281,51 @@ func init() {
 			}
 		},
 	})
+}
+
+// c13ResolveThen: resolve, then resolve, print and dump on the same tree; every output must equal the output on
+// a fresh tree and the snapshot must not change (lean version of c13Tree for the 226 k M-ns programs).
+func c13ResolveThen(c *core.Ctx, src []byte, ver string) {
+	v := parseVer(ver)
+	parse := func() ast.Vertex {
+		res := drive.Parse(src, v, true)
+		if !res.OK() || res.Root == nil {
+			return nil
+		}
+		return res.Root
+	}
+	t := parse()
+	if t == nil {
+		return
+	}
+	c.Stat("trees", 1)
+	c.NontrivialH(core.Hash(ver + string(src)))
+	find := func(name string) c13op {
+		for _, op := range c13ops {
+			if op.name == name {
+				return op
+			}
+		}
+		panic("no op " + name)
+	}
+	snap0 := astx.Snapshot(&t)
+	path := []string{"resolve", "resolve", "print", "dump+tokens+positions"}
+	for k, name := range path {
+		op := find(name)
+		fresh := op.fn(parse())
+		out := op.fn(t)
+		c.P.Trans++
+		cs := c13Case{"hist", ver, src, string(src), path[:k+1]}
+		if out != fresh {
+			c.Report("output of "+name+" differs from its output on a fresh tree after "+strings.Join(path[:k], ","), mkWhat("fresh: %q now: %q in %q", clipS(fresh, 120), clipS(out, 120), src), cs)
+			return
+		}
+		if k == 0 || k == len(path)-1 {
+			if sn := astx.Snapshot(&t); sn != snap0 {
+				c.Report("tree modified by "+name, mkWhat("after %v on %q: %s", path[:k+1], src, firstDiffStr(snap0, sn)), cs)
+				return
+			}
+		}
+	}
+	c.P.States++
 }
